@@ -130,4 +130,85 @@ theorem flatMap_length_eq {l : List γ} (f : γ → List α) (g : γ → List β
     simp only [List.flatMap_cons, List.length_append]
     rw [h x (by simp), ih (fun y hy => h y (by simp [hy]))]
 
+
+/-! ### in-place assignment of the coordinate array (`Op.assignSame`) -/
+
+theorem writeAt_length (heap : List F) (rows : List Nat) (fs : List F) : (writeAt heap rows fs).length = heap.length := by
+  induction rows generalizing heap fs with
+  | nil => simp [writeAt]
+  | cons a rows ih =>
+    cases fs with
+    | nil => simp [writeAt]
+    | cons f fs => simp [writeAt, ih]
+
+theorem writeAt_getElem?_of_not_mem (heap : List F) (rows : List Nat) (fs : List F) (a : Nat) (ha : a ∉ rows) :
+    (writeAt heap rows fs)[a]? = heap[a]? := by
+  induction rows generalizing heap fs with
+  | nil => simp [writeAt]
+  | cons r rows ih =>
+    cases fs with
+    | nil => simp [writeAt]
+    | cons f fs =>
+      have hr : r ≠ a := fun h => ha (by simp [h])
+      have hrows : a ∉ rows := fun h => ha (by simp [h])
+      simp only [writeAt]
+      rw [ih (heap.set r f) fs hrows, List.getElem?_set_ne hr]
+
+theorem gather_writeAt_disjoint (heap : List F) (rows : List Nat) (fs : List F) (rows' : List Nat)
+    (hd : ∀ a ∈ rows', a ∉ rows) : gather (writeAt heap rows fs) rows' = gather heap rows' := by
+  induction rows' with
+  | nil => rfl
+  | cons a r ih =>
+    have h1 := writeAt_getElem?_of_not_mem heap rows fs a (hd a (by simp))
+    simp only [gather, h1, ih (fun x hx => hd x (by simp [hx]))]
+
+/-- the condition under which `assignSame` keeps every cache right: no *other* trajectory that holds a cache shares storage with `i` -/
+def Safe (w : World F T) : Op F → Prop
+  | .assignSame i _ => ∀ t, w.trajs[i]? = some t → ∀ j u, j ≠ i → w.trajs[j]? = some u → u.traces ≠ none → ∀ a ∈ u.rows, a ∉ t.rows
+  | _ => True
+
+/-- every step of the history is safe in the state it is applied to -/
+def SafeRun (ops : FrameOps F T) : World F T → List (Op F) → Prop
+  | _, [] => True
+  | w, op :: l => Safe w op ∧ SafeRun ops (step ops w op) l
+
+theorem mem_set_cases {α : Type} (l : List α) (i : Nat) (b x : α) (h : x ∈ l.set i b) :
+    (∃ j, j ≠ i ∧ l[j]? = some x) ∨ x = b := by
+  obtain ⟨j, hj⟩ := List.mem_iff_getElem?.mp h
+  rw [List.getElem?_set] at hj
+  by_cases hij : i = j
+  · subst hij
+    simp only [if_true] at hj
+    split at hj
+    · right; exact (Option.some.inj hj).symm
+    · cases hj
+  · simp only [hij, if_false] at hj
+    left; exact ⟨j, fun e => hij e.symm, hj⟩
+
+/-- `assignSame` preserves the invariant when it is safe -/
+theorem inv_assignSame (ops : FrameOps F T) (w : World F T) (i : Nat) (fs : List F) (hI : Inv ops w)
+    (hs : Safe w (.assignSame i fs)) : Inv ops (step ops w (.assignSame i fs)) := by
+  cases hi : w.trajs[i]? with
+  | none => simp only [step, hi]; exact hI
+  | some t =>
+    simp only [step, hi]
+    split
+    · rename_i hlen
+      have ht := hI t (List.mem_of_getElem? hi)
+      intro u hu
+      have hbound : ∀ (x : Traj T), WF w.heap x → WF (writeAt w.heap t.rows fs) x := fun x hx =>
+        ⟨hx.1, hx.2.1, hx.2.2.1, fun a ha => by rw [writeAt_length]; exact hx.2.2.2 a ha⟩
+      rcases mem_set_cases _ _ _ _ hu with ⟨j, hji, huj⟩ | h
+      · have hu' := hI u (List.mem_of_getElem? huj)
+        refine ⟨hbound u hu'.1, ?_⟩
+        intro tr htr
+        have hdis := hs t hi j u hji huj (by rw [htr]; simp)
+        have : frames (writeAt w.heap t.rows fs) u = frames w.heap u := gather_writeAt_disjoint _ _ _ _ hdis
+        rw [this]; exact hu'.2 tr htr
+      · subst h
+        refine ⟨⟨ht.1.1, ht.1.2.1, ?_, fun a ha => by rw [writeAt_length]; exact ht.1.2.2.2 a ha⟩, ?_⟩
+        · intro tr htr; cases htr
+        · intro tr htr; cases htr
+    · exact hI
+
 end MdVerif.TrajModel
